@@ -51,6 +51,43 @@ pub(crate) fn compress_merkle_proofs<F: RichField, H: Hasher<F>>(
     compressed_proofs
 }
 
+/// Whether compressed proofs with the given numbers of siblings have the shape that
+/// `decompress_merkle_proofs` consumes for these leaf indices: the first proof of a leaf carries
+/// exactly the siblings that are not known by then, in the order of `compress_merkle_proofs`
+/// (repeated leaves share the proof of their first occurrence).
+pub(crate) fn compressed_merkle_proofs_shape_ok(
+    leaves_indices: &[usize],
+    sibling_counts: &[usize],
+    height: usize,
+    cap_height: usize,
+) -> bool {
+    if leaves_indices.len() != sibling_counts.len() || height < cap_height {
+        return false;
+    }
+    let num_leaves = 1 << height;
+    if leaves_indices.iter().any(|&i| i >= num_leaves) {
+        return false;
+    }
+    let mut known = vec![false; 2 * num_leaves];
+    let mut first_occurrence = vec![false; leaves_indices.len()];
+    for (k, &i) in leaves_indices.iter().enumerate() {
+        first_occurrence[k] = !known[i + num_leaves];
+        known[i + num_leaves] = true;
+    }
+    let mut consumed = vec![0; leaves_indices.len()];
+    for layer_height in 0..height - cap_height {
+        for (k, &i) in leaves_indices.iter().enumerate() {
+            let index = (i + num_leaves) >> layer_height;
+            if !known[index ^ 1] {
+                known[index ^ 1] = true;
+                consumed[k] += 1;
+            }
+            known[index >> 1] = true;
+        }
+    }
+    (0..leaves_indices.len()).all(|k| !first_occurrence[k] || consumed[k] == sibling_counts[k])
+}
+
 /// Decompress compressed Merkle proofs.
 /// Note: The data and indices must be in the same order as in `compress_merkle_proofs`.
 pub(crate) fn decompress_merkle_proofs<F: RichField, H: Hasher<F>>(
